@@ -3,7 +3,9 @@
    vm_compute on the model and replayed on the implementation, where the property as stated does NOT hold on the
    unchanged tree; the neighbouring theorems state what does hold, for every input. *)
 From Coq Require Import NArith List Bool.
+From Coq Require Import Lia.
 From V Require Import Model.Transfer Proofs.TransferProofs Proofs.TransferProofs2.
+From V Require Import Proofs.TransferProofsX1 Proofs.TransferProofsX2 Proofs.TransferProofsX3 Proofs.TransferProofsX4.
 Import ListNotations.
 Open Scope N_scope.
 
@@ -131,8 +133,7 @@ Theorem transfer_refused_unchanged : forall m ids rt xd src t t' e ph,
 Proof. exact transfer_refused. Qed.
 Print Assumptions transfer_refused_unchanged.
 
-(* ---- non-vacuity / reachable instances (transfer_exact and transfer_idempotent are checked on instances and by the
-   correspondence only; they are not proved for all inputs) *)
+(* ---- non-vacuity / reachable instances *)
 Definition x_src : state :=
   St [(100, 1); (101, 2); (0, 1); (1, 2); (2, 3)] [(0, 0); (1, 1)]
      [(0, RUN); (1, RUN); (2, TAGGED); (3, CALIB); (4, CHAINED); (5, CHAINED)] [(4, [0; 2]); (5, [4; 1])]
@@ -165,3 +166,172 @@ Proof. vm_compute. reflexivity. Qed.
 Example transfer_refused_nonvacuous :
   snd (fst (transfer_from Copy [1] true true w_src (St [] [(0, 2)] [] [] [] [] [] []))) = Err Conflict.
 Proof. vm_compute. reflexivity. Qed.
+
+(* ==================================================================== wave 4: the main clauses at full strength *)
+(* ---- transfer_from *)
+(* transfer_exact: an accepted transfer_from, for EVERY source state, selection, flag combination and target.
+   `selected ids src d` = d is a dataset of the source, its id was selected and it has an artifact there (datasets without
+   artifact are skipped by the code: skip_missing).  Rows: the old ones plus exactly the selected ones (same id, type,
+   data id, run); each of them is there under its id in a RUN collection with its dataset type, whose definition is the
+   source's; datastore: the old records stay in place, the new ones belong to selected datasets only, and a selected
+   dataset has the target's old record if it had one and otherwise the source's content; tags, validity ranges, chains
+   are untouched; collections, dimension records and dataset types that existed keep their definition. *)
+Theorem transfer_exact : forall ids rt xd src t t' ph, transfer_from Copy ids rt xd src t = (t', Ok, ph) ->
+  (forall d, In d (dsets t') <-> In d (dsets t) \/ selected ids src d) /\
+  (forall d, selected ids src d -> find_id (d_id d) (dsets t') = Some d /\ lookup (d_run d) (colls t') = Some RUN /\
+             has_key (d_type d) (types t') = true /\
+             (forall c, lookup (d_type d) (types src) = Some c -> lookup (d_type d) (types t') = Some c)) /\
+  (exists new, stored t' = stored t ++ new /\
+     forall n i, In (n, i) new -> is_stored n t = false /\ exists d, selected ids src d /\ d_id d = n) /\
+  (forall d, selected ids src d ->
+     lookup (d_id d) (stored t') = match lookup (d_id d) (stored t) with
+                                   | Some i => Some i
+                                   | None => match content_of (d_id d) src with Some v => Some (Some v, true) | None => None end
+                                   end) /\
+  tags t' = tags t /\ calibs t' = calibs t /\ chains t' = chains t /\
+  (forall c k, lookup c (colls t) = Some k -> lookup c (colls t') = Some k) /\
+  (forall k p, lookup k (dims t) = Some p -> lookup k (dims t') = Some p) /\
+  (forall ty c, lookup ty (types t) = Some c -> lookup ty (types t') = Some c).
+Proof. exact transfer_exact_l. Qed.
+Print Assumptions transfer_exact.
+
+(* transfer_idempotent: repeating an accepted transfer is accepted again and changes NOTHING (the whole state is equal) *)
+Theorem transfer_idempotent : forall ids rt xd src t t' ph, transfer_from Copy ids rt xd src t = (t', Ok, ph) ->
+  transfer_from Copy ids rt xd src t' = (t', Ok, false).
+Proof. exact transfer_idempotent_l. Qed.
+Print Assumptions transfer_idempotent.
+
+(* ---- export + import_, accepted: every clause of "reproduces the selection exactly" *)
+(* `exported ids src d` = d is a dataset of the source whose id was selected; `saved ids cs src c` = c was passed to
+   saveCollection or is the run of an exported dataset.  For ALL modes, selections, sources and targets:
+   1 rows: old ones plus exactly the exported ones;
+   2 contents: old records stay, new records only for exported datasets; each exported dataset was not stored in the
+     target before and now reads back the source's content;
+   3 TAGGED memberships: old ones plus exactly the source's memberships of exported datasets in saved TAGGED collections;
+   4 validity ranges: old ones, then exactly the source's rows of exported datasets in saved CALIBRATION collections;
+   5 chains: every saved CHAINED collection is CHAINED with exactly the source's ordered children; chains that were not
+     saved keep their definition; existing collections keep their type; every saved collection exists;
+   6 dimension records: existing ones kept; the records of every exported data id exist and equal the source's unless the
+     target already had a record under that key (that case is finding 2, dimension_record_conflict_kept_refuted); no other
+     record appears. *)
+Theorem import_export_exact : forall m ids cs src t t', exim m ids cs src t = (t', Ok) ->
+  (forall d, In d (dsets t') <-> In d (dsets t) \/ exported ids src d) /\
+  ((exists new, stored t' = stored t ++ new /\
+      forall n i, In (n, i) new -> is_stored n t = false /\ exists d, exported ids src d /\ d_id d = n) /\
+   (forall d, exported ids src d -> is_stored (d_id d) t = false /\ content_of (d_id d) src <> None /\
+              content_of (d_id d) t' = content_of (d_id d) src)) /\
+  ((forall c n, In (c, n) (tags t') <-> In (c, n) (tags t) \/
+      (In (c, n) (tags src) /\ saved ids cs src c /\ lookup c (colls src) = Some TAGGED /\ exists d, exported ids src d /\ d_id d = n)) /\
+   (exists new, tags t' = tags t ++ new /\ forall q, In q new -> ~ In q (tags t)) /\
+   (exists new, calibs t' = calibs t ++ new /\ forall c n r, In (c, n, r) new <->
+      (In (c, n, r) (calibs src) /\ saved ids cs src c /\ lookup c (colls src) = Some CALIB /\ exists d, exported ids src d /\ d_id d = n))) /\
+  ((forall c, saved ids cs src c -> lookup c (colls src) = Some CHAINED ->
+              lookup c (colls t') = Some CHAINED /\ lookup c (chains t') = Some (children_of c src)) /\
+   (forall c, saved ids cs src c -> has_key c (colls t') = true) /\
+   (forall c k, lookup c (colls t) = Some k -> lookup c (colls t') = Some k) /\
+   (forall c, ~ (saved ids cs src c /\ lookup c (colls src) = Some CHAINED) -> lookup c (chains t') = lookup c (chains t))) /\
+  ((forall k p, lookup k (dims t) = Some p -> lookup k (dims t') = Some p) /\
+   (forall d, exported ids src d -> has_dims (d_data d) t' = true /\
+      forall k, k = inst_key (d_data d) \/ k = d_data d -> lookup k (dims t) = None -> lookup k (dims t') = lookup k (dims src)) /\
+   (forall k, lookup k (dims t) = None -> lookup k (dims t') <> None ->
+      lookup k (dims t') = lookup k (dims src) /\ exists d, exported ids src d /\ (k = inst_key (d_data d) \/ k = d_data d))).
+Proof.
+  intros m ids cs src t t' H. split; [exact (exim_ok_datasets _ _ _ _ _ _ H)|].
+  split; [exact (exim_ok_contents _ _ _ _ _ _ H)|]. split; [exact (exim_ok_assoc _ _ _ _ _ _ H)|].
+  split; [exact (exim_ok_chains _ _ _ _ _ _ H) | exact (exim_ok_dims _ _ _ _ _ _ H)].
+Qed.
+Print Assumptions import_export_exact.
+
+(* the same for an arbitrary export file (not necessarily produced by export): tags, validity ranges, dimension records *)
+Theorem import_accepted_associations_exact : forall m b t t', import_ m b t = (t', Ok) ->
+  (forall q, In q (tags t') <-> In q (tags t) \/ In q (b_tags b)) /\
+  (exists new, tags t' = tags t ++ new /\ incl new (b_tags b) /\ forall q, In q new -> ~ In q (tags t)) /\
+  calibs t' = calibs t ++ b_calibs b /\
+  (forall k, lookup k (dims t') = match lookup k (dims t) with Some v => Some v | None => lookup k (b_dims b) end) /\
+  (forall d, In d (map fst (b_dsets b)) -> has_dims (d_data d) t' = true).
+Proof. exact import_ok_assoc. Qed.
+Print Assumptions import_accepted_associations_exact.
+
+(* ... and chain definitions, for a file whose chain entries have distinct names *)
+Theorem import_accepted_chains_exact : forall m b t t', NoDup (map cname (filter is_chain_entry (b_colls b))) -> import_ m b t = (t', Ok) ->
+  (forall c k, lookup c (colls t) = Some k -> lookup c (colls t') = Some k) /\
+  (forall p, In p (b_colls b) -> has_key (cname p) (colls t') = true) /\
+  (forall p, In p (b_colls b) -> is_chain_entry p = true ->
+             lookup (cname p) (colls t') = Some CHAINED /\ lookup (cname p) (chains t') = Some (snd p)) /\
+  (forall c, ~ In c (map cname (filter is_chain_entry (b_colls b))) -> lookup c (chains t') = lookup c (chains t)).
+Proof. exact import_ok_chains. Qed.
+Print Assumptions import_accepted_chains_exact.
+
+(* ---- acceptance *)
+(* import_into_empty_accepted: the export of a well-formed request on a well-formed source is ACCEPTED by an empty target,
+   in every mode.  `wf rank src` are the invariants of a repository built through the public API (C01-C04): dataset ids
+   unique, (type, data id, run) unique, run / dataset type / dimension records of every dataset exist, tags only in TAGGED
+   collections and unique per (collection, type, data id), validity ranges only in CALIBRATION collections, of calibration
+   types, pairwise disjoint per (collection, type, data id), chains acyclic (rank decreases from parent to child chain).
+   `well_formed_request`: selected ids exist and have artifacts, saved collections exist, and every child of a saved chain
+   is itself saved or the run of an exported dataset.  Together with import_export_exact this is DESIGN's
+   import_export_exact at full strength. *)
+Theorem import_into_empty_accepted : forall rank m ids cs src, wf rank src -> well_formed_request ids cs src ->
+  exists t', exim m ids cs src empty = (t', Ok).
+Proof. exact import_into_empty_accepted_l. Qed.
+Print Assumptions import_into_empty_accepted.
+
+(* more generally: accepted by every target whose registry content is a part of the source's (same definitions) and
+   that has no datastore records and no validity ranges yet *)
+Theorem import_into_part_accepted : forall rank m ids cs src t, wf rank src -> well_formed_request ids cs src ->
+  agrees src t -> stored t = [] -> calibs t = [] -> exists t', exim m ids cs src t = (t', Ok).
+Proof. exact accept_l. Qed.
+Print Assumptions import_into_part_accepted.
+
+(* the export itself succeeds, with the collections in an importable order (export_order_ok) *)
+Theorem export_accepted : forall rank ids cs src, wf rank src -> well_formed_request ids cs src -> exists b, export ids cs src = XOk b.
+Proof. exact export_ok. Qed.
+Print Assumptions export_accepted.
+
+(* ---- non-vacuity of the hypotheses: x_src (nested chains 5 -> 4 -> {0, 2}, tags, validity ranges) is well-formed *)
+Ltac split_in H := simpl in H; repeat match type of H with _ \/ _ => destruct H as [H|H] end; try contradiction.
+Ltac chained_name c Hc :=
+  simpl in Hc;
+  repeat match type of Hc with
+         | (if ?c0 =? ?k then _ else _) = _ => let E := fresh "E" in destruct (c0 =? k) eqn:E;
+             [try discriminate; apply N.eqb_eq in E; subst c0 |]
+         end; try discriminate.
+
+Example x_src_wf : wf N.to_nat x_src.
+Proof.
+  constructor.
+  - intros d1 d2 H1 H2 He. split_in H1; split_in H2; subst; simpl in He; try discriminate; reflexivity.
+  - intros d1 d2 H1 H2 He. split_in H1; split_in H2; subst; vm_compute in He; try discriminate; reflexivity.
+  - intros d H. split_in H; subst; vm_compute; auto.
+  - intros c n H. split_in H; inversion H; subst; reflexivity.
+  - intros c n1 n2 d1 d2 H1 H2 H3 H4 E1 E2 E3 E4. split_in H1; split_in H2; inversion H1; inversion H2; subst; try reflexivity;
+      split_in H3; split_in H4; subst; simpl in *; try discriminate; try reflexivity.
+  - intros c n r H. split_in H; inversion H; subst; (split; [reflexivity|]); intros d Hd He; split_in Hd; subst; simpl in He; try discriminate; reflexivity.
+  - simpl. split; [|split; [|exact I]]; [|intros y []].
+    intros y [<-|[]] d d' Hd Hd' E1 E2 _ E3 E4. split_in Hd; split_in Hd'; subst; simpl in *; discriminate.
+  - intros c x Hc Hx Hk. chained_name c Hc.
+    + split_in Hx; subst; vm_compute in Hk; discriminate.
+    + split_in Hx; subst; vm_compute in Hk; try discriminate. vm_compute. lia.
+Qed.
+
+Example x_request_wf : well_formed_request [1; 2; 3; 4] [2; 3; 4; 5] x_src.
+Proof.
+  split; [|split; [|split]].
+  - intros n H. split_in H; subst; eexists; (split; [|reflexivity]); simpl; tauto.
+  - intros d [H _]. split_in H; subst; vm_compute; discriminate.
+  - intros c H. split_in H; subst; reflexivity.
+  - intros c x _ Hc Hx. chained_name c Hc.
+    + split_in Hx; subst; [right; exists (D 1 0 0 0); repeat split; simpl; tauto | left; simpl; tauto].
+    + split_in Hx; subst; [left; simpl; tauto | right; exists (D 3 1 0 1); repeat split; simpl; tauto].
+Qed.
+
+Example import_into_empty_accepted_nonvacuous : exists t', exim Copy [1; 2; 3; 4] [2; 3; 4; 5] x_src empty = (t', Ok).
+Proof. exact (import_into_empty_accepted N.to_nat Copy _ _ _ x_src_wf x_request_wf). Qed.
+
+(* the conclusions of transfer_exact / transfer_idempotent are reached: see transfer_exact_and_idempotent_instance above;
+   a transfer into a partially populated target keeps the record the target already had *)
+Example transfer_exact_keeps_existing :
+  let t := St [(100, 1); (0, 1)] [(0, 0)] [(0, RUN)] [] [D 1 0 0 0] [(1, (Some 77, true))] [] [] in
+  let '(t1, o1, _) := transfer_from Copy [1; 2] true true x_src t in
+  o1 = Ok /\ dsets t1 = [D 1 0 0 0; D 2 0 1 0] /\ stored t1 = [(1, (Some 77, true)); (2, (Some 12, true))].
+Proof. vm_compute. repeat split. Qed.
